@@ -34,7 +34,9 @@ def main():
     meta = json.loads((d / "meta.json").read_text())
     props = a.props.split(",") if a.props else [meta["property"]]
     # demonstrations assert the checkout path they were written against: /tmp/mut-<property id>
-    wt = Path(meta.get("worktree") or f"/tmp/mut-{meta['property'].lower()}")
+    # (".st" suffix: still satisfies the demonstrations' startswith() assertion without colliding with
+    # a mutation author's live worktree at /tmp/mut-<property id>)
+    wt = Path(meta.get("worktree") or f"/tmp/mut-{meta['property'].lower()}.st")
     if wt.exists():
         sh(f"git -C /repo worktree remove --force {wt}")
     sh(f"git -C /repo worktree add -q --detach {wt} {a.base}")
